@@ -33,4 +33,10 @@ CHECKS = {
                      '(any names, indices, number of columns): the row satisfies value/derivative/two-point constraints with its own '
                      'parameters; the model is proved equal (expr_eqb inside the kernel) to the term regenerated from conditions.py for '
                      'each of the 94 + 209 lookup tables of the quantifier'),
+    'C12': dict(engine=ENGINE_A, technique=TECH_A, note=NOTE_A + '; torch.cat / column slicing modelled (checked by the harness)', ref='DESIGN.md section 7 C12',
+                text='list-generic Coq model of EnsembleCondition.parameterize with theorems for every list of sub-conditions (column i = '
+                     'sub-condition i on output i alone, width, mismatch rejected, guarantees inherited), proved equal to the terms '
+                     'regenerated from conditions.py for 1..4 opaque sub-conditions x 1..4 inputs; concrete class tuples column by column; '
+                     'NoCondition identity; output-unit selection; the constructor refuses exactly the classes overriding enforce '
+                     '(class table regenerated from the source)'),
 }
